@@ -15,8 +15,8 @@
    below) against file_name, set and get of the model, the dependencies
    (sha256, hex, json, x509, os.ReadFile, filepath.Join, file.WriteFile) being
    universally quantified oracles with the hypothesis "answers like the model
-   of it". Get is translated under the option NilIsEmpty: see the remark there
-   and docs/audit/C15.md, section "GoLite". *)
+   of it". The nil / empty distinction of content.DeltaCRL (crl.go:104) is kept
+   by the translation (NilableFields): see [dopt]. *)
 From Coq Require Import List Bool String Ascii NArith ZArith Lia.
 From NV Require Import Base GoLib C15_Model C15_Proofs C15_Audit C15_Gen.
 Import ListNotations.
@@ -271,19 +271,16 @@ Print Assumptions C15_gen_zero_is_error.
 (* ================================================================== *)
 
 (* a byte slice as the model's byte string; the Raw of a parsed list *)
-Definition rawstr (r : x509_RevocationList) : string := str_of_bytes (RevocationList_Raw r).
+Definition rawstr (r : x509_RevocationList) : string := str_of_bytes (onil (RevocationList_Raw r)).
 
-(* content.DeltaCRL as the model's optional delta. Get is translated with the
-   option NilIsEmpty: `content.DeltaCRL != nil` (crl.go:104) is read as
-   `len(content.DeltaCRL) != 0`, because a slice is a list and nil = empty.
-   The real code tells the two apart: "deltaCRL":"" decodes to an empty non-nil
-   slice, which Get hands to the parser (-> "failed to parse delta CRL"), where
-   the translation sees no delta. That one decoder answer — model: dec c =
-   Some (b, Some "") — is outside what the generated Get can express; the
-   hypothesis [unmarshal_agrees] below cannot be met for such a content, so
-   the theorem is silent there (harness: family corrupt, case "delta:empty-string"). *)
-Definition dopt (D : list Z) : option string :=
-  match D with [] => None | _ => Some (str_of_bytes D) end.
+(* content.DeltaCRL as the model's optional delta. The field is translated with
+   its nil-ness (row NilableFields of the target table): None = a nil slice (no
+   "deltaCRL" member, or null), Some [] = the empty non-nil slice that
+   "deltaCRL":"" decodes to. `content.DeltaCRL != nil` (crl.go:104) is
+   therefore exactly the model's `d = Some _`: an empty delta is handed to the
+   parser, as in the real code. (RevocationList.Raw is nilable too: Set copies
+   bundle.DeltaCRL.Raw, nil or not, into the content.) *)
+Definition dopt (D : option (list Z)) : option string := option_map str_of_bytes D.
 
 (* sha256.Sum256 seen by the model *)
 Definition sha_of (sum : list Z -> list Z) (u : string) : string := str_of_bytes (sum (bytes_of_str u)).
@@ -346,10 +343,10 @@ Definition set_code (sum : list Z -> list Z) (hexenc : list Z -> string)
       match ptr_val (Bundle_BaseCRL bv) with
       | None => Some (Err "errors" "failed to store crl bundle in file cache: bundle BaseCRL cannot be nil" [])
       | Some b =>
-          let content := mk_fileCacheContent (RevocationList_Raw b)
+          let content := mk_fileCacheContent (onil (RevocationList_Raw b))
                            (match ptr_val (Bundle_DeltaCRL bv) with
                             | Some d => RevocationList_Raw d
-                            | None => []
+                            | None => None
                             end) in
           match snd (marshal content) with
           | Some e => Some (Err "fmt" "failed to store crl bundle in file cache: %w" [e])
@@ -378,10 +375,10 @@ Proof.
   rewrite ptr_is_nil_val.
   destruct (ptr_val (Bundle_DeltaCRL bv)) as [d|]; cbn [is_none negb];
     unfold set_fileCacheContent_DeltaCRL; cbn [fileCacheContent_BaseCRL fileCacheContent_DeltaCRL].
-  - destruct (marshal (mk_fileCacheContent (RevocationList_Raw b) (RevocationList_Raw d))) as [bytes [e|]];
+  - destruct (marshal (mk_fileCacheContent (onil (RevocationList_Raw b)) (RevocationList_Raw d))) as [bytes [e|]];
       cbn [is_none negb olist fst snd]; [reflexivity|].
     destruct (write _ _ bytes) as [e|]; reflexivity.
-  - destruct (marshal (mk_fileCacheContent (RevocationList_Raw b) [])) as [bytes [e|]];
+  - destruct (marshal (mk_fileCacheContent (onil (RevocationList_Raw b)) None)) as [bytes [e|]];
       cbn [is_none negb olist fst snd]; [reflexivity|].
     destruct (write _ _ bytes) as [e|]; reflexivity.
 Qed.
@@ -504,7 +501,7 @@ Definition unmarshal_agrees
            (unmarshal : list Z -> crl_fileCacheContent -> crl_fileCacheContent * option err)
            (dec : string -> option (string * option string)) : Prop :=
   forall bs,
-    let r := unmarshal bs (mk_fileCacheContent [] []) in
+    let r := unmarshal bs (mk_fileCacheContent [] None) in
     match dec (str_of_bytes bs) with
     | None => exists e, snd r = Some e /\ wraps_miss e = false
     | Some (b, d) => snd r = None /\ str_of_bytes (fileCacheContent_BaseCRL (fst r)) = b
@@ -571,31 +568,31 @@ Proof.
     rewrite (class_wrap_err _ e Hnm). reflexivity. }
   destruct Hpb as (-> & rb & Hrb & Hrawb & Hnub). cbn [is_none negb].
   unfold set_Bundle_BaseCRL, set_Bundle_DeltaCRL. cbn [Bundle_BaseCRL Bundle_DeltaCRL].
-  rewrite list_len_zero. unfold dopt in Hd.
-  destruct (fileCacheContent_DeltaCRL content) as [|z D] eqn:HD.
-  - (* no delta *)
-    subst d. cbn [negb ptr_is_nil]. rewrite Hrb.
+  unfold dopt in Hd.
+  destruct (fileCacheContent_DeltaCRL content) as [D|] eqn:HD; cbn [option_map] in Hd.
+  2: { (* no delta *)
+    subst d. cbn [is_none negb ptr_is_nil]. rewrite Hrb.
     rewrite <- Hnub, <- (C15_gen_checkExpiry_equiv now _ 5 1).
     destruct (gen_crl_checkExpiry now (RevocationList_NextUpdate rb)) as [x|]; cbn [is_none negb olist].
     + expiry_class x.
-    + cbn [get_res res_of_expiry ptr_val Bundle_BaseCRL Bundle_DeltaCRL option_map]. rewrite Hrb, Hrawb. reflexivity.
-  - (* a delta *)
-    subst d. cbn [negb].
-    pose proof (Hparse (z :: D)) as Hpd.
-    destruct (parseRL (z :: D)) as [pd ed]. cbn [fst snd] in Hpd.
-    destruct (parse (str_of_bytes (z :: D))) as [|rawd nud].
-    { destruct Hpd as (e & -> & Hnm). cbn [is_none negb olist get_res].
-      rewrite (class_wrap_err _ e Hnm). reflexivity. }
-    destruct Hpd as (-> & rd & Hrd & Hrawd & Hnud). cbn [is_none negb]. rewrite Hrb.
-    rewrite <- Hnub, <- (C15_gen_checkExpiry_equiv now _ 5 1).
-    destruct (gen_crl_checkExpiry now (RevocationList_NextUpdate rb)) as [x|]; cbn [is_none negb olist].
-    + expiry_class x.
-    + cbn [res_of_expiry]. rewrite ptr_is_nil_val, Hrd. cbn [is_none negb].
-      rewrite <- Hnud, <- (C15_gen_checkExpiry_equiv now _ 6 2).
-      destruct (gen_crl_checkExpiry now (RevocationList_NextUpdate rd)) as [y|]; cbn [is_none negb olist].
-      * expiry_class y.
-      * cbn [get_res res_of_expiry ptr_val Bundle_BaseCRL Bundle_DeltaCRL option_map].
-        rewrite Hrb, Hrd. cbn [option_map]. rewrite Hrawb, Hrawd. reflexivity.
+    + cbn [get_res res_of_expiry ptr_val Bundle_BaseCRL Bundle_DeltaCRL option_map]. rewrite Hrb, Hrawb. reflexivity. }
+  (* a delta, possibly of length 0 *)
+  subst d. cbn [is_none negb onil].
+  pose proof (Hparse D) as Hpd.
+  destruct (parseRL D) as [pd ed]. cbn [fst snd] in Hpd.
+  destruct (parse (str_of_bytes D)) as [|rawd nud].
+  { destruct Hpd as (e & -> & Hnm). cbn [is_none negb olist get_res].
+    rewrite (class_wrap_err _ e Hnm). reflexivity. }
+  destruct Hpd as (-> & rd & Hrd & Hrawd & Hnud). cbn [is_none negb]. rewrite Hrb.
+  rewrite <- Hnub, <- (C15_gen_checkExpiry_equiv now _ 5 1).
+  destruct (gen_crl_checkExpiry now (RevocationList_NextUpdate rb)) as [x|]; cbn [is_none negb olist].
+  - expiry_class x.
+  - cbn [res_of_expiry]. rewrite ptr_is_nil_val, Hrd. cbn [is_none negb].
+    rewrite <- Hnud, <- (C15_gen_checkExpiry_equiv now _ 6 2).
+    destruct (gen_crl_checkExpiry now (RevocationList_NextUpdate rd)) as [y|]; cbn [is_none negb olist].
+    + expiry_class y.
+    + cbn [get_res res_of_expiry ptr_val Bundle_BaseCRL Bundle_DeltaCRL option_map].
+      rewrite Hrb, Hrd. cbn [option_map]. rewrite Hrawb, Hrawd. reflexivity.
 Qed.
 Print Assumptions C15_gen_Get_equiv.
 
